@@ -2,9 +2,9 @@ package main
 
 import (
 	"fmt"
+	"go/types"
 	"os"
 	"time"
-	"go/types"
 
 	"golang.org/x/tools/go/packages"
 	"golang.org/x/tools/go/ssa"
